@@ -48,11 +48,13 @@ DFSOk == ev.ev = "trav" => \A i \in DOMAIN ev.dfs :
       /\ \A v \in want \ D : v \in SetOf(r.descents)
 
 \* topological sorting: every vertex exactly once, every edge forward; panics exactly on cyclic graphs
-KahnOk == ev.ev = "trav" =>
-   LET L == ev.kahn.order IN
-   /\ ev.kahn.panic = Cyclic(Edges)
-   /\ ~ev.kahn.panic => /\ Len(L) = N /\ SetOf(L) = V
-                        /\ \A e \in Edges : (CHOOSE i \in DOMAIN L : L[i] = e[1]) < (CHOOSE i \in DOMAIN L : L[i] = e[2])
+KahnRun(k) ==
+   LET L == k.order IN
+   /\ k.panic = Cyclic(Edges)
+   /\ ~k.panic => /\ Len(L) = N /\ SetOf(L) = V
+                  /\ \A e \in Edges : (CHOOSE i \in DOMAIN L : L[i] = e[1]) < (CHOOSE i \in DOMAIN L : L[i] = e[2])
+\* (kahn: the first routine run on the graph object; kahn2: a second sort after all other routines ran on it)
+KahnOk == ev.ev = "trav" => KahnRun(ev.kahn) /\ KahnRun(ev.kahn2)
 
 \* components: a partition into exactly the mutual-reachability classes
 SCCOk == ev.ev = "trav" =>
